@@ -99,9 +99,13 @@ class Saveable:
             self.hashes = load_parcel(hfile)
             
         if tag is None:
-            try:
-                last = list(self.hashes.keys())[-1]
-            except IndexError:
+            # the next free integer tag: tags given explicitly may be out
+            # of order or may not be integers at all
+            itags = [tg for tg in self.hashes.keys() 
+                     if isinstance(tg, int) and not isinstance(tg, bool)]
+            if len(itags) > 0:
+                last = max(itags)
+            else:
                 last = 0
             tag = last + 1
             
